@@ -724,3 +724,35 @@ def _drop_last_arg(tree, fname, callee, cls=None):
                     c.args = c.args[:3]
                     return True
     return False
+
+
+@PROP.obligation('C15.lot-sequence-domain', canaries=[
+    mut.replace_expr('keys', 'bip38_intermediate_password', '0 <= sequence <= 4095', '0 <= sequence < 4095', 'the last sequence number 4095 is refused'),
+    mut.replace_expr('keys', 'bip38_intermediate_password', '100000 <= lot <= 999999', '100000 < lot <= 999999', 'the first lot number 100000 is refused'),
+])
+def lot_sequence_domain(ctx):
+    """BIP38 lot numbers are 100000 .. 999999 and sequence numbers 0 .. 4095 (a 12-bit field). Every raise of
+    bip38_intermediate_password that is guarded by a test of lot or sequence alone is evaluated at the ends and in the middle of those
+    ranges: none fires for a documented value - a key for sequence 4095 or lot 100000 can be made - and each fires just outside."""
+    q = 'keys:bip38_intermediate_password'
+    fn = ctx.repo.func(q)
+    n = 0
+    for i_ in ast.walk(fn):
+        if not (isinstance(i_, ast.If) and any(isinstance(x, ast.Raise) for x in i_.body)):
+            continue
+        names = set(x.id for x in ast.walk(i_.test) if isinstance(x, ast.Name))
+        for var, inside, outside in (('sequence', (0, 1, 2048, 4094, 4095), (-1, 4096)), ('lot', (100000, 100001, 524288, 999998, 999999), (99999, 1000000))):
+            if names != {var}:
+                continue
+            n += 1
+            for v, want in [(x, False) for x in inside] + [(x, True) for x in outside]:
+                try:
+                    r = bool(eval(compile(ast.Expression(i_.test), '<range>', 'eval'), {'__builtins__': {}}, {var: v}))
+                except Exception as e:
+                    ctx.undecided('bip38_intermediate_password: range test `%s` not evaluable: %r' % (norm(i_.test)[:50], e))
+                if r != want:
+                    ctx.violate(q, '`%s` %s %s = %d' % (norm(i_.test)[:60], 'refuses the documented value' if r else 'accepts the out-of-range value', var, v), i_,
+                                'bip38_intermediate_password(passphrase, lot=..., sequence=4095) raises: no EC-multiplied key can be made for the last sequence number of a lot')
+                    break
+            ctx.saw('range test `%s` evaluated at the ends of the %s range' % (norm(i_.test)[:50], var))
+    ctx.floor(n, 2, 'range tests of lot / sequence')
